@@ -44,6 +44,7 @@ structure ConnInfo where
   ended : Option (Nat × String)      -- t, "eof" | "rst"
   endSeq : Option Nat                -- seq of that event
   remoteClosed : Option Nat          -- seq of r.close / r.reset
+  pauses : List (Nat × Nat) := []    -- intervals in which the remote deliberately did not read
   remoteFin : Bool := false          -- the remote only half-closed (FIN): everything it sent before is read by corebgp, and it
                                      -- keeps reading what corebgp writes until corebgp closes
 deriving Inhabited
@@ -63,7 +64,9 @@ def connsOf (evs : List Ev) (peer : String) : List ConnInfo :=
       ended := (mine.find? fun e => e.ev == "r.eof" || e.ev == "r.rst").map fun e => (e.t, (e.ev.drop 2).toString),
       endSeq := (mine.find? fun e => e.ev == "r.eof" || e.ev == "r.rst").map (·.seq),
       remoteClosed := (mine.find? fun e => e.ev == "r.close" || e.ev == "r.reset").map (·.seq),
-      remoteFin := mine.any fun e => e.ev == "r.close" && e.arg 1 == "fin" }
+      remoteFin := mine.any fun e => e.ev == "r.close" && e.arg 1 == "fin",
+      pauses := (mine.filter (·.ev == "r.pause")).map fun e =>
+        (e.t, ((mine.find? fun x => x.ev == "r.resume" && x.seq > e.seq).map (·.t)).getD (e.t + (e.arg 1).toNat?.getD 0 * 1000000)) }
 
 structure CbCall where
   name : String
@@ -385,7 +388,10 @@ def monitorHold (cfg : SessCfg) (c : ConnInfo) (cbs : List CbCall) (tObsEnd : Na
       let pts := (sends.filter (· ≤ tStop)) ++ [tStop]
       let mut prev := tUp
       for t in pts do
-        if t > prev + limit then
+        -- (the remote's clock for "sent" is the moment it read the bytes: an interval in which it deliberately did not
+        -- read says nothing about when corebgp sent)
+        let blind := c.pauses.any fun (a, b) => a < t && prev < b
+        if t > prev + limit && !blind then
           fails := fails ++ [s!"C06 {(t - prev) / ms} ms passed without corebgp sending a KEEPALIVE or UPDATE (hold time {hold} s: at most about one third)"]
         prev := max prev t
     return fails
@@ -420,6 +426,13 @@ def monitorWriters (evs : List Ev) (peer : String) (conns : List ConnInfo) (segs
         if ret == "nil" && cnt != 1 && !remoteGone then
           fails := fails ++ [s!"C04 WriteUpdate returned nil but its body appears {cnt} times on the wire (must be exactly once)"]
         if cnt > 1 then fails := fails ++ ["C04 an UPDATE body appears more than once on the wire"]
+        -- a write issued well after the remote reset the connection cannot have succeeded (the reset reaches the local
+        -- socket at once on loopback; 20 ms allowed)
+        let tCall := ((evs.find? fun x => x.seq == sq).map (·.t)).getD 0
+        match conn.bind fun c => (evs.find? fun x => x.peer == peer && x.ev == "r.reset" && x.arg 0 == c.id).map (·.t) with
+        | some tr => if ret == "nil" && tCall > tr + 20 * ms then
+            fails := fails ++ [s!"C04 WriteUpdate returned nil although the remote had reset the connection {(tCall - tr) / ms} ms before the call"]
+        | none => pure ()
         if sq > closeExit then
           if ret == "nil" then fails := fails ++ ["C04 WriteUpdate succeeded after the session had ended (OnClose returned)"]
           for (cid, bodies) in allBodies do
@@ -497,9 +510,16 @@ def monitorPacing (evs : List Ev) (peer : String) : List String := Id.run do
         else if e.arg 1 == "idle" && e.arg 2 == "connect" then
           (match prev with | some p => [(p, e)] | none => []) ++ exits (some e) rest
         else exits prev rest
+    -- (the log line lags the action; the `dial` event of that attempt — recorded when its socket is created — is nearer to it)
+    let tExit (e : Ev) : Nat :=
+      let dist (x : Nat) := if x ≤ e.t then e.t - x else x - e.t
+      match (dials.map (·.t)).foldl (fun (best : Option Nat) t =>
+          match best with | some b => if dist t < dist b then some t else some b | none => some t) none with
+      | some t => if dist t < 50 * ms then min t e.t else e.t
+      | none => e.t
     for (e1, e2) in exits none outT do
-      if e2.t + eps < e1.t + ih then
-        fails := fails ++ [s!"C11 two consecutive exits from Idle were only {(e2.t - e1.t) / ms} ms apart although the idle-hold time is {ih / ms} ms"]
+      if tExit e2 + eps < tExit e1 + ih then
+        fails := fails ++ [s!"C11 two consecutive exits from Idle were only {(tExit e2 - tExit e1) / ms} ms apart although the idle-hold time is {ih / ms} ms"]
     -- in a pure refusal regime (never beyond Connect) the same holds for the dial attempts themselves
     if !(outT.any fun e => ["active", "openSent", "openConfirm", "established"].contains (e.arg 2)) &&
        (outT.filter fun e => e.arg 1 == "disabled").length ≤ 1 then
@@ -555,6 +575,12 @@ def monitorDamping (evs : List Ev) (peer : String) (conns : List ConnInfo) (trig
   | some d => if triggers.isEmpty then fails := fails ++ [s!"C12 the peer was damped ({d.arg 0} s) although no NOTIFICATION other than Cease was sent or received"]
               else if d.arg 0 != "60" then fails := fails ++ [s!"C12 first hold-down is {d.arg 0} s, not 60 s"]
   | none => pure ()
+  -- the back-off ladder: 60 s, then doubling up to 300 s (every trace is far shorter than the 300 s of amnesia)
+  let damps := evs.filter fun e => e.peer == peer && e.ev == "log.damp"
+  for (d, k) in damps.zip (List.range damps.length) do
+    let want := min (60 * 2 ^ k) 300
+    if k > 0 && d.arg 0 != toString want then
+      fails := fails ++ [s!"C12 hold-down number {k + 1} within 300 s is {d.arg 0} s, not {want} s (doubling from 60 s up to 300 s)"]
   -- when the period ends the peer is retried: an active peer dials again (a passive one is probed by the script)
   match evs.find? fun e => e.peer == peer && e.ev == "hook.expire" with
   | some x =>
